@@ -52,6 +52,11 @@ def run(chk, repo):
     chk.rule("C14-S6", "entries are grouped by section and merged into dicts (no positional access)", 2)
     rx = compiled_regexes(mod)
     if "entry_re" not in rx:
+        # re-exported from the module the parser moved to
+        r = repo.resolve_module_name(mod, "entry_re")
+        if r.kind == "value":
+            rx = compiled_regexes(r.mod)
+    if "entry_re" not in rx:
         raise AnalysisError("anchor vanished: summary.entry_re")
     R = rx["entry_re"]
     chk.attempt(summary_eval, chk, repo, mod)
@@ -83,7 +88,19 @@ def run(chk, repo):
                 f"entry_re parses {bad[0]!r} as {bad[1]}: the keyword/value split is not at the first =\"" if bad else "", key="entry_re:enumeration")
     chk.attempt(s3, chk, repo, mod, covered_by="summary_eval", rules=("C14-S3",))
     chk.attempt(s4_form, chk, repo, mod, covered_by="summary_eval", rules=("C14-S4",))
-    # S5
+    chk.attempt(section_schema, chk, repo, mod)
+    chk.attempt(s5_form, chk, repo, mod, covered_by="section_schema", rules=("C14-S5",))
+    chk.attempt(grouping_semantics, chk, repo, mod, covered_by="summary_eval", rules=("C14-S6",))
+    chk.attempt(keyword_order, chk, repo, mod)
+    from .c13 import summary_published_as_parsed
+    chk.attempt(summary_published_as_parsed, chk, repo)
+    chk.attempt(summary_values, chk, repo, mod)
+    chk.count("functions", 3)
+
+
+def s5_form(chk, repo, mod):
+    """form rule: the two literal section tables have the same keys (when the tables are built some other way - a registry
+    filled by decorators, one table of pairs - which section surfaces where is decided by the schema inference, C14-S7)"""
     sn = mod.assigns.get("section_names")
     ts = mod.func("transform_summary")
     tkeys = None
@@ -93,15 +110,10 @@ def run(chk, repo):
     from ..interproc import dict_entries
     sn_entries = dict_entries(repo, mod, sn[-1]) if sn else None
     skeys = set(sn_entries) if sn_entries is not None else None
-    chk.require(tkeys is not None and tkeys == skeys, "C14-S5", f"{mod.relpath}:transform_summary", f"sections {sorted(skeys or [])} each have a transformer and a name",
+    if not tkeys or not skeys:
+        raise AnalysisError(f"{mod.relpath}:transform_summary: the section tables are not two literal dicts (names: {sorted(skeys or [])}, transformers: {sorted(tkeys or [])}); not decided by the form rule")
+    chk.require(tkeys == skeys, "C14-S5", f"{mod.relpath}:transform_summary", f"sections {sorted(skeys or [])} each have a transformer and a name",
                 f"section_names keys {sorted(skeys or [])} != transformer keys {sorted(tkeys or [])}", key="sections:agree")
-    chk.attempt(grouping_semantics, chk, repo, mod, covered_by="summary_eval", rules=("C14-S6",))
-    chk.attempt(section_schema, chk, repo, mod)
-    chk.attempt(keyword_order, chk, repo, mod)
-    from .c13 import summary_published_as_parsed
-    chk.attempt(summary_published_as_parsed, chk, repo)
-    chk.attempt(summary_values, chk, repo, mod)
-    chk.count("functions", 3)
 
 
 def s1_form(chk, repo, mod, R):
@@ -166,7 +178,9 @@ def summary_eval(chk, repo, mod, rule="C14-S9"):
         def eg(I_, a, kw):
             groups.append(a)
             return Obj("ExceptionGroup", OrderedDict(message=a[0] if a else Const(None), exceptions=a[1] if len(a) > 1 else ListLit([]), classes=Const(("ExceptionGroup", "Exception", "BaseException", "object"))))
-        sc.vars["ExceptionGroup"] = Fn("py", impl=eg, name="ExceptionGroup")
+        for m_ in repo.modules.values():
+            if "ExceptionGroup" in m_.source:  # wherever the parser lives
+                I.module_scope(m_).vars["ExceptionGroup"] = Fn("py", impl=eg, name="ExceptionGroup")
         try:
             if through_open[0]:
                 # the way a product is opened: bytes of the summary file -> open_summary -> (decode) -> parse_summary; the section
@@ -231,6 +245,9 @@ def summary_eval(chk, repo, mod, rule="C14-S9"):
                     named.append(int(digits[0]) if digits else None)
                 if sorted(x for x in named if x is not None) != list(subset) or None in named:
                     fails.setdefault("malformed-lines", []).append(f"lines {list(subset)} corrupted ({cname}): the error group names lines {named}")
+    if rule != "C14-S9":
+        # another property asks only that a damaged summary is an error, not how it is reported
+        fails = {k: v for k, v in fails.items() if k == "malformed-accepted"}
     for k, msgs in sorted(fails.items()):
         chk.fail(rule, where, msgs[0] + (f" (and {len(msgs) - 1} more texts)" if len(msgs) > 1 else ""), key=f"corpus:{k}")
     if not fails:
